@@ -44,7 +44,7 @@ def perms(n, tier_quick, seed_rng):
     if (n <= 3) or (not tier_quick and n <= 6):
         return [p for p in itertools.permutations(idx) if list(p) != idx]
     out = {tuple(reversed(idx)), tuple(idx[1:] + idx[:1]), tuple(idx[-1:] + idx[:-1])}
-    want = 5 if tier_quick else 40
+    want = 4 if tier_quick else 40
     tries = 0
     while len(out) < want and tries < 200:
         tries += 1
@@ -70,39 +70,45 @@ def outcome(fn, *a, **kw):
 
 
 def check_case(part, src, stmts, mk_run, mk_sa, quick, rng, labels):
-    """stmts: statement texts in original order; mk_run(script)/mk_sa(script) call the engine."""
+    """stmts: statement texts in a reference order; every tested order (reference + permutations) must give the
+    same outcome.  A script is valid iff SOME tested order is accepted; then every order must be accepted."""
     from vtlengine import run, semantic_analysis
-    base_script = "\n".join(stmts)
-    o_sa = outcome(lambda: sa_canon(semantic_analysis(**mk_sa(base_script))))
-    o_run = outcome(lambda: cmp.canon_results(run(**mk_run(base_script))))
-    if o_run[0] != "ok" or o_sa[0] != "ok":
-        part.hist["original_not_valid"] += 1
+    idx = tuple(range(len(stmts)))
+    orders = [idx] + [tuple(p) for p in perms(len(stmts), quick, rng)]
+    outs = []
+    for p in orders:
+        script = "\n".join(stmts[i] for i in p)
+        o_sa = outcome(lambda: sa_canon(semantic_analysis(**mk_sa(script))))
+        o_run = outcome(lambda: cmp.canon_results(run(**mk_run(script))))
+        outs.append((p, o_sa, o_run))
+        part.hist["orders_run"] += 1
+    ok = [o for o in outs if o[1][0] == "ok" and o[2][0] == "ok"]
+    if not ok:
+        part.hist["no_order_valid"] += 1
         return
-    ps = perms(len(stmts), quick, rng)
-    nt = len(stmts) >= 3 and bool(ps)
+    nt = len(stmts) >= 3 and len(orders) > 1
     part.case(core.fingerprint([src, stmts]), nt, sample=dict(source=src, statements=stmts[:6]) if nt and len(part.samples) < 3 else None,
               labels=labels + ["n=%d" % min(len(stmts), 9)])
-    for p in ps:
-        script = "\n".join(stmts[i] for i in p)
-        part.hist["permutations_run"] += 1
-        r_sa = outcome(lambda: sa_canon(semantic_analysis(**mk_sa(script))))
-        case = dict(source=src, statements=stmts, permutation=list(p))
-        if r_sa[0] != "ok":
-            part.fail("semantic_analysis_rejects_permutation:%s" % (r_sa[1] if r_sa[0] == "vtl" else r_sa[1].split(":")[0]), case,
-                      "semantic_analysis accepted the original order but failed on permutation %r: %r" % (p, r_sa[1]))
+    ref = ok[0]
+    for p, o_sa, o_run in outs:
+        if p == ref[0]:
+            continue
+        case = dict(source=src, statements=stmts, accepted_order=list(ref[0]), other_order=list(p))
+        if o_sa[0] != "ok":
+            part.fail("semantic_analysis_rejects_some_order:%s" % (o_sa[1] if o_sa[0] == "vtl" else o_sa[1].split(":")[0]), case,
+                      "semantic_analysis accepts order %r but fails on order %r: %r" % (ref[0], p, o_sa[1]))
             return
-        d = cmp.diff_results(o_sa[1], r_sa[1])
+        d = cmp.diff_results(ref[1][1], o_sa[1])
         if d:
-            part.fail("semantic_structures_differ", case, "semantic_analysis structures differ under permutation %r: %s" % (p, d))
+            part.fail("semantic_structures_differ", case, "semantic_analysis structures differ between orders %r and %r: %s" % (ref[0], p, d))
             return
-        r_run = outcome(lambda: cmp.canon_results(run(**mk_run(script))))
-        if r_run[0] != "ok":
-            part.fail("run_rejects_permutation:%s" % (r_run[1] if r_run[0] == "vtl" else r_run[1].split(":")[0]), case,
-                      "run accepted the original order but failed on permutation %r: %r" % (p, r_run[1]))
+        if o_run[0] != "ok":
+            part.fail("run_rejects_some_order:%s" % (o_run[1] if o_run[0] == "vtl" else o_run[1].split(":")[0]), case,
+                      "run accepts order %r but fails on order %r: %r" % (ref[0], p, o_run[1]))
             return
-        d = cmp.diff_results(o_run[1], r_run[1])
+        d = cmp.diff_results(ref[2][1], o_run[1])
         if d:
-            part.fail("run_results_differ", case, "run results differ under permutation %r: %s" % (p, d))
+            part.fail("run_results_differ", case, "run results differ between orders %r and %r: %s" % (ref[0], p, d))
             return
 
 
@@ -152,7 +158,7 @@ def graph_strategy():
         names = {"ds": ["DS_1", "DS_2", "DS_3"], "sc": [], "j": []}
         stmts, used_defs = [], set()
         for k in range(n):
-            kinds = ["ds"] * 4 + ["sc"] + (["j"] if True else [])
+            kinds = ["ds"] * 4 + ["sc", "sc", "j"]
             kind = draw(st.sampled_from(kinds))
             name = "%s_%d" % ({"ds": "R", "sc": "k", "j": "J"}[kind], k + 1)
             pick = lambda pool: draw(st.sampled_from(pool))
@@ -168,7 +174,7 @@ def graph_strategy():
                     "left_join(%s as d1, %s as d2 rename d1#Me_1 to a1, d2#Me_1 to a2)",
                     "full_join(%s as d1, %s as d2 calc a1 := d1#Me_1, a2 := d2#Me_1 drop d1#Me_1, d2#Me_1)"])) % (a, b)
             else:
-                t = draw(st.integers(0, 12))
+                t = draw(st.sampled_from([0, 1, 2, 3, 4, 5, 5, 5, 6, 6, 7, 8, 8, 9, 9, 10, 11, 12]))
                 a = pick(names["ds"]); b = pick(names["ds"])
                 if t == 0: expr = "%s + %s" % (a, b)
                 elif t == 1: expr = "%s * 2" % a
@@ -245,7 +251,11 @@ def work_generated(seed, n, quick):
         want = "1-3-2-3" if kind == "cycle" else "1-2-2"
         part.case(core.fingerprint([kind, sorted(stmts)]), len(stmts) >= 3, labels=["negative:" + kind])
         idx = list(range(len(stmts)))
-        for p in itertools.permutations(idx):
+        allp = list(itertools.permutations(idx))
+        if len(allp) > (24 if quick else 720):
+            rng = random.Random(hash(tuple(stmts)) % 1000003)
+            allp = rng.sample(allp, 24 if quick else 720)
+        for p in allp:
             script = "\n".join(stmts[i] for i in p)
             for fname, call in (("semantic_analysis", lambda: semantic_analysis(**mk_sa(script))), ("run", lambda: run(**mk_run(script)))):
                 o = outcome(call)
@@ -269,9 +279,9 @@ def run(ctx):
                 "non-trivial = >=3 statements and >=1 non-identity permutation executed; negative cases: generated cycles / redefinitions, all permutations")
     multi = [c for c in corpus.executable_cases(max_s=2.0 if ctx.quick else 20.0) if c["script"].count(";") >= 2]
     if ctx.quick:
-        multi = corpus.rotate(multi, ctx.seed, 90)
+        multi = corpus.rotate(multi, ctx.seed, 64)
     ids = [c["id"] for c in multi]
-    n = 12 if ctx.quick else 400
+    n = 9 if ctx.quick else 400
     jobs = [("work_corpus", (ids[k::16], ctx.quick, ctx.seed)) for k in range(16)]
     jobs += [("work_generated", (ctx.seed * 1009 + k, n, ctx.quick)) for k in range(16)]
     ctx.merge(core.pmap("checks.c12", "_dispatch", jobs, procs=16))
